@@ -19,13 +19,15 @@
 
 from __future__ import annotations
 
+import json
 import uuid
 from abc import ABC, abstractmethod
+from copy import deepcopy
 from typing import TYPE_CHECKING
 
 import numpy as np
 
-from ..shared.utils import map_attributes, str2uuid
+from ..shared.utils import as_str_if_uuid, dict_mapper, map_attributes, str2uuid
 
 
 if TYPE_CHECKING:
@@ -238,6 +240,8 @@ class Entity(ABC):
     @metadata.setter
     def metadata(self, value: dict | None):
         if isinstance(value, dict):
+            # refuse a value that cannot be stored before anything is changed
+            json.dumps(dict_mapper(deepcopy(value), [as_str_if_uuid]))
             if isinstance(self.metadata, dict):
                 self._metadata.update(value)  # type: ignore
             else:
